@@ -100,24 +100,28 @@ def main() -> int:
     pp = ck.work / "obs.json"
     pp.write_text(json.dumps([{"m": r["m"], "outcome": r["outcome"], "unsure": r["unsure"]} for r in obs], separators=(",", ":")))
     res = ck.tlc("RulesTrace", what="V: a broken rule implies a rejection", env={"VERIF_OBS": str(pp)}, cont=True, workers=PROCS, timeout=2400, jvm=("-Xms1g", "-Xmx8g"))
-    counts = None
-    rules_broken = ""
-    for line in res.printed:
-        m = re.search(r"counts\", (\d+), (\d+), (\d+), (\d+), (\d+)", line)
-        if m:
-            counts = [int(x) for x in m.groups()]
-        m = re.search(r"rules\", (\{.*\})", line)
-        if m:
-            rules_broken = m.group(1)
-    if counts is None:
-        raise core.MachineryFailure("RulesTrace printed no counters")
-    n_obs, n_breaking, n_breaking_rejected, n_wellformed, n_wellformed_accepted = counts
+    broken_by = {}   # observation index -> set of broken (judged) rules, as found by TLC
+    reports = []
     for v in res.violations:
         i = res.var_of(v, "i")
-        if i is None or not v["invariant"].startswith("Inv_"):
+        name = v["invariant"]
+        if i is None or not (name.startswith("Inv_") or name.startswith("Count_")):
             raise core.MachineryFailure("cannot read TLC violation: %r" % v)
-        r, e = obs[int(i) - 1], entries[int(i) - 1]
-        rule, _, outcome = v["invariant"][4:].partition("__")
+        idx = int(i) - 1
+        rule, _, outcome = name.split("_", 1)[1].partition("__")
+        broken_by.setdefault(idx, set()).add(rule)
+        if name.startswith("Inv_"):
+            reports.append((idx, rule, outcome))
+    n_obs = len(obs)
+    n_breaking = len(broken_by)
+    n_breaking_rejected = sum(1 for i in broken_by if obs[i]["outcome"] == "rejected")
+    n_wellformed = n_obs - n_breaking
+    n_wellformed_accepted = sum(1 for i, r in enumerate(obs) if i not in broken_by and r["outcome"] == "accepted")
+    rules_broken = sorted(set().union(*broken_by.values())) if broken_by else []
+    if not replay and res.distinct != n_obs * 12:
+        raise core.MachineryFailure("RulesTrace explored %d states, expected %d" % (res.distinct, n_obs * 12))
+    for idx, rule, outcome in reports:
+        r, e = obs[idx], entries[idx]
         key = {"rule": rule, "outcome": outcome}
         where = ""
         if r["outcome"] == "exception":
@@ -153,6 +157,8 @@ def main() -> int:
         "TLC, SANY, CommunityModules Json; CPython's ast to read the meta-model text independently of the front end",
         "the documented lists of reserved names are represented by the samples in Rules.tla; order of constructor arguments = the partial order 'ancestor's properties first, own in textual order' within the arguments with / without default",
     ]
+    if not replay and set(rules_broken) != set(rulesmm.ALL_RULES):
+        raise core.MachineryFailure("vacuous run: no case breaks %s" % sorted(set(rulesmm.ALL_RULES) - set(rules_broken)))
     if not replay and (n_breaking == 0 or n_wellformed_accepted == 0):
         raise core.MachineryFailure("vacuous run: breaking=%d well-formed accepted=%d" % (n_breaking, n_wellformed_accepted))
     return ck.finish()
